@@ -16,7 +16,8 @@ Decided (DESIGN.md section 5, C09):
 import ast
 
 from ..core.cfg import cfg_of
-from ..core.defuse import rd_of, Expander, fmt_term, term_alts
+from ..core.defuse import (rd_of, Expander, fmt_term, term_alts,
+                           term_contains)
 from ..core import terms as T
 from ..core.loader import unparse, AnalysisError, FunctionInfo
 from ..core.resolve import resolve_callee, bind_args
@@ -56,6 +57,10 @@ EXPLANATION += (
     'specification is refreshed under a test of that file.'
 )
 
+EXPLANATION += (
+    ' Round 5: the ABC front end keys its dataset -> output and dataset -> cells tables by the label as given (R-SAMEVAL/dataset-label-keys); settings are forwarded (R-FWD).'
+)
+
 RULE_TEXT = (
     "one obligation per key of each producer, per required read, per "
     "merge loop, per statistic, per use of the row index")
@@ -80,11 +85,16 @@ def check(ctx):
     check_per_file_state(ctx)
     check_same_gene_order(ctx)
     check_merge_tables_agree(ctx)
+    check_dataset_keys_as_given(ctx)
     from .C05 import check_tiles
     check_tiles(ctx, ('diff_exp.precompute_from_anndata',
                       'diff_exp.precompute_utils'), floor=1)
     from .C05 import sweep_generic_rules
     sweep_generic_rules(ctx, ('diff_exp.precompute',))
+    # settings this property depends on are handed down every call
+    # chain, never left to a callee's default (sa/rules/forwarding.py)
+    from ..rules.forwarding import check_forwarding
+    check_forwarding(ctx, {'normalization', 'rows_at_a_time', 'n_processors', 'cell_set', 'gene_names', 'bad_row_idx'})
 
 
 # ----------------------------------------------------------------------
@@ -899,3 +909,106 @@ def check_merge_tables_agree(ctx):
                    f'`{unparse(g.ast.test)[:70]}` compares the tables '
                    f'through `{weak}`: files that name the same clusters / '
                    'genes under different numbers are merged row for row')
+
+
+def _elem_source(t):
+    """the collection a key is an element of, wrappers that keep the
+    elements as they are (set / list / sorted / keys / zip position)
+    stripped; None when the key is computed from the element"""
+    def container(c):
+        while c and c[0] == 'call' and c[1] in (
+                ('name', 'set'), ('name', 'list'), ('name', 'sorted'),
+                ('name', 'tuple')) and len(c[2]) == 1:
+            c = c[2][0]
+        return c
+    if not t:
+        return None
+    if t[0] == 'iterelem':
+        return container(t[1])
+    if t[0] == 'sub' and t[1][0] == 'iterelem' and t[2][0] == 'const':
+        z = t[1][1]
+        if z[0] == 'call' and z[1] == ('name', 'zip'):
+            try:
+                return container(z[2][int(t[2][1])])
+            except (ValueError, IndexError):
+                return None
+    return None
+
+
+def check_dataset_keys_as_given(ctx):
+    """the ABC front end splits the reference by dataset with two tables:
+    dataset -> output file and dataset -> member cells.  The second is
+    looked up with the keys of the first, and a key that is not found means
+    "all cells".  Both therefore have to be keyed by the dataset label as
+    it stands in the metadata column (constants aside): a table keyed by a
+    cleaned-up label silently computes a dataset's statistics over every
+    cell."""
+    db = ctx.db
+    rule = 'R-SAMEVAL/dataset-label-keys'
+    try:
+        fm = db.fn('cli.precompute_stats_abc:PrecomputationABCRunner.'
+                   'create_dataset_to_output_map')
+        fr = db.fn('cli.precompute_stats_abc:PrecomputationABCRunner.run')
+    except (KeyError, AnalysisError):
+        raise AnalysisError('the ABC precomputation front end was not '
+                            'found')
+    ctx.touch(fm)
+    ctx.touch(fr)
+
+    def key_sources(fi, only=None):
+        cfg = cfg_of(fi)
+        rd = rd_of(fi)
+        ex = Expander(fi)
+        out = []
+        for n in cfg.nodes:
+            st = n.ast
+            if n.id in rd.live and isinstance(st, ast.Assign) \
+                    and isinstance(st.targets[0], ast.Subscript) \
+                    and isinstance(st.targets[0].value, ast.Name) \
+                    and (only is None or st.targets[0].value.id in only):
+                t = ex.expand(st.targets[0].slice, n.id)
+                if t[0] == 'const':
+                    continue
+                out.append((st, t, _elem_source(t)))
+        return out
+
+    # the table that is returned
+    returned = set()
+    for n in ast.walk(fm.node):
+        if isinstance(n, ast.Return) and isinstance(n.value, ast.Name):
+            returned.add(n.value.id)
+    a = key_sources(fm, returned)
+    # the table looked up with the keys of the first: `k in D` where k
+    # iterates over the map
+    cfg = cfg_of(fr)
+    rd = rd_of(fr)
+    ex = Expander(fr)
+    looked = set()
+    for n in cfg.nodes:
+        if n.kind != 'if' or n.id not in rd.live:
+            continue
+        for c in ast.walk(n.ast.test):
+            if isinstance(c, ast.Compare) and len(c.ops) == 1 \
+                    and isinstance(c.ops[0], (ast.In, ast.NotIn)) \
+                    and isinstance(c.comparators[0], ast.Name) \
+                    and isinstance(c.left, ast.Name):
+                t = ex.expand(c.left, n.id)
+                if term_contains(t, lambda x: len(x) == 3 and x[0]
+                                 == 'attr' and x[2] == fm.name):
+                    looked.add(c.comparators[0].id)
+    b = key_sources(fr, looked)
+    if not a or not b:
+        raise AnalysisError(
+            'the dataset -> output and dataset -> cells tables were not '
+            f'recognised ({len(a)} / {len(b)} keyed stores)')
+    ref = {src for (_s, _t, src) in b if src is not None}
+    for k, (st, t, src) in enumerate(a + b):
+        fi = fm if k < len(a) else fr
+        ok = src is not None and (src in ref)
+        ctx.ob(rule, f'{fi.qual}:store#{k}', fi.loc(st), ok,
+               'keyed by the dataset label as it stands in the metadata'
+               if ok else
+               f'`{unparse(st)[:60]}` keys the table by '
+               f'{fmt_term(t)[:80]}, not by the dataset label as given: '
+               'the lookup of the dataset\'s cells with this key fails and '
+               'falls back to all cells')
